@@ -49,7 +49,12 @@ Inductive op :=
 | OCursor (t c : N)
 | OCMin (c : N) | OCMax (c : N) | OCCeil (c : N) (k : key) | OCFwd (c : N) | OCBwd (c : N) | OCGet (c : N)
 | ODiff (tn : N) (told : option N)
-| ODiffLinks (tn : N) (told : option N).
+| ODiffLinks (tn : N) (told : option N)
+| ODiffStop (tn : N) (told : option N) (n : nat)   (* the entry callback answers keepGoing=false at its n-th call (0-based) *)
+| ODiffFail (tn : N) (told : option N) (n : nat)   (* the entry callback fails at its n-th call *)
+| ODiffCur (tn : N) (told : option N)              (* StartDiff / NextEntry until ErrNoMoreDiffs *)
+| OIterStop (t : N) (n : nat)                      (* the callback returns ErrIterDone at its n-th call *)
+| OSeekStop (t : N) (k : key) (n : nat).
 
 (* a diff event as observed through the callbacks: links by name *)
 Inductive dobs :=
@@ -195,6 +200,21 @@ Definition step (w : world) (o : op) : world * obs * list event :=
       let o := match told with Some i => option_map t_m (aget (w_trees w) i) | None => None end in
       ro w (diff _ _ kcmp bytes_eqb (layer_of (t_m x)) o (t_m x))
          (fun l => ObDiff (links_only (flat_map dobs_of l))))
+  | ODiffStop tn told n => with_tree w tn (fun x =>
+      let o := match told with Some i => option_map t_m (aget (w_trees w) i) | None => None end in
+      ro w (diff _ _ kcmp bytes_eqb (layer_of (t_m x)) o (t_m x))
+         (fun l => ObDiff (firstn (S n) (entries_only (flat_map dobs_of l)))))
+  | ODiffFail tn told n => with_tree w tn (fun x =>
+      let o := match told with Some i => option_map t_m (aget (w_trees w) i) | None => None end in
+      ro w (diff _ _ kcmp bytes_eqb (layer_of (t_m x)) o (t_m x))
+         (fun l => let es := entries_only (flat_map dobs_of l) in
+                   if Nat.ltb n (length es) then ObFail 1 else ObDiff es))
+  | ODiffCur tn told => with_tree w tn (fun x =>
+      let o := match told with Some i => option_map t_m (aget (w_trees w) i) | None => None end in
+      ro w (diff _ _ kcmp bytes_eqb (layer_of (t_m x)) o (t_m x))
+         (fun l => ObDiff (entries_only (flat_map dobs_of l))))
+  | OIterStop t n => with_tree w t (fun x => ro w (iter _ _ (t_m x)) (fun l => ObList (firstn (S n) l)))
+  | OSeekStop t k n => with_tree w t (fun x => ro w (seek_iter _ _ kcmp (t_m x) k) (fun l => ObList (firstn (S n) l)))
   end.
 
 Fixpoint run (w : world) (ops : list op) : list (obs * list event) :=
